@@ -213,15 +213,15 @@ def oracle(case, impl):
     if M >= 3:
         d = co - np.roll(co, 1, axis=0)
         L = np.where(np.isfinite(d).all(axis=1), np.hypot(d[:, 0], d[:, 1]), -1.0)
-        j0 = int(np.argmax(L))
         cands = []
-        if L[j0] > 0:
-            t = d[j0] / L[j0]
-            for nx, ny in ((t[1], -t[0]), (-t[1], t[0])):
-                phi = math.atan2(ny, nx)
-                for sigma in (-1, 1):
-                    cands.append((phi - sigma * j0 * rs, sigma))
-        else:
+        for j0 in [int(v) for v in np.argsort(-L)[:3]]:
+            if L[j0] > 0:
+                t = d[j0] / L[j0]
+                for nx, ny in ((t[1], -t[0]), (-t[1], t[0])):
+                    phi = math.atan2(ny, nx)
+                    for sigma in (-1, 1):
+                        cands.append((phi - sigma * j0 * rs, sigma))
+        if not cands:
             cands = [(0.5 * np.pi, -1)]
         for phi0, sigma in cands:
             f = edge_fail(phi0, sigma, M)
